@@ -301,14 +301,14 @@ theorem spec_atom (t : Token) (h : Syn.Supported (.atom t)) :
     obtain ⟨h0, rfl⟩ := hmap
     obtain ⟨f, rfl⟩ : ∃ f, fuel = f + 1 := ⟨fuel - 1, by simp [Syn.need] at hfuel; omega⟩
     rw [currentDatum, hcur]
-    cases t <;> simp_all [Syn.isAtomTok, Syn.denote, Datum.strip, Leaves] <;>
+    cases t <;> simp_all [Syn.isAtomTok, Syn.denote, Leaves] <;>
       exact ⟨_, _, ⟨rfl, rfl⟩, rfl, by first | rfl | exact hs, rfl⟩
   · intro fuel s lt0 lmore lrest hfuel hmap hcur hs
     simp only [Syn.toks, List.map_cons, List.cons.injEq, List.map_eq_nil_iff] at hmap
     obtain ⟨h0, rfl⟩ := hmap
     obtain ⟨f, rfl⟩ : ∃ f, fuel = f + 1 := ⟨fuel - 1, by simp [Syn.need] at hfuel; omega⟩
     rw [datum, hcur]
-    cases t <;> simp_all [Syn.isAtomTok, Syn.denote, Datum.strip, Leaves] <;>
+    cases t <;> simp_all [Syn.isAtomTok, Syn.denote, Leaves] <;>
       exact ⟨_, _, ⟨rfl, rfl⟩, rfl, by first | rfl | exact hs, rfl⟩
 
 /-- both readers on a parenthesised list, proper (`tail = none`) or dotted -/
@@ -602,5 +602,79 @@ theorem readAll_render (xs : List Syn) (hxs : Syn.SupportedL xs) (layout : List 
       exact k1
     rw [this]
     exact ⟨by simpa using k2, rfl⟩
+
+/-! ## data and their canonical written form -/
+
+mutual
+theorem ofDatum_denote : (d : Datum) → (Syn.ofDatum d).denote = d.strip
+  | .prim p _ => rfl
+  | .sym s _ => rfl
+  | .nil _ => rfl
+  | .vec xs _ => by simp [Syn.ofDatum, Syn.denote, Datum.strip, ofDatums_denote xs]
+  | .pair a d _ => by
+    have h1 := ofDatum_denote a
+    have h2 := ofTail_denote d
+    simp only [Syn.ofDatum]
+    split
+    · rename_i h; rw [h] at h2; simp only [tailDen] at h2
+      simp [Syn.denote, Syn.denoteL, Datum.strip, h1, h2]
+    · rename_i t h; rw [h] at h2; simp only [tailDen] at h2
+      simp [Syn.denote, Syn.denoteL, Datum.strip, h1, h2]
+theorem ofTail_denote : (d : Datum) →
+    Syn.denoteL (Syn.ofTail d).1 (tailDen (Syn.ofTail d).2) = d.strip
+  | .pair a d _ => by
+    simp [Syn.ofTail, Syn.denoteL, Datum.strip, ofDatum_denote a, ofTail_denote d]
+  | .nil _ => rfl
+  | .prim p _ => rfl
+  | .sym s _ => rfl
+  | .vec xs _ => by
+    simp [Syn.ofTail, Syn.denoteL, tailDen, Syn.denote, Datum.strip, ofDatums_denote xs]
+theorem ofDatums_denote : (xs : List Datum) →
+    Syn.denoteV (Syn.ofDatums xs) = Datum.stripList xs
+  | [] => rfl
+  | x :: xs => by
+    simp [Syn.ofDatums, Syn.denoteV, Datum.stripList, ofDatum_denote x, ofDatums_denote xs]
+end
+
+mutual
+theorem ofDatum_supported : (d : Datum) → SupportedD d → (Syn.ofDatum d).Supported
+  | .prim p _, h => ⟨rfl, h⟩
+  | .sym s _, h => ⟨rfl, h⟩
+  | .nil _, _ => by simp [Syn.ofDatum, Syn.Supported, Syn.SupportedL]
+  | .vec xs _, h => by
+    simpa [Syn.ofDatum, Syn.Supported] using ofDatums_supported xs (by simpa [SupportedD] using h)
+  | .pair a d _, h => by
+    simp only [SupportedD] at h
+    have h1 := ofDatum_supported a h.1
+    have h2 := ofTail_supported d h.2
+    simp only [Syn.ofDatum]
+    split
+    · simp [Syn.Supported, Syn.SupportedL, h1, h2.1]
+    · rename_i t ht
+      simp [Syn.Supported, Syn.SupportedL, h1, h2.1, h2.2 t ht]
+theorem ofTail_supported : (d : Datum) → SupportedD d →
+    Syn.SupportedL (Syn.ofTail d).1 ∧ ∀ t, (Syn.ofTail d).2 = some t → t.Supported
+  | .pair a d _, h => by
+    simp only [SupportedD] at h
+    have h1 := ofDatum_supported a h.1
+    have h2 := ofTail_supported d h.2
+    exact ⟨by simp [Syn.ofTail, Syn.SupportedL, h1, h2.1], by simpa [Syn.ofTail] using h2.2⟩
+  | .nil _, _ => by simp [Syn.ofTail, Syn.SupportedL]
+  | .prim p _, h => by
+    refine ⟨by simp [Syn.ofTail, Syn.SupportedL], ?_⟩
+    intro t ht; simp only [Syn.ofTail, Option.some.injEq] at ht; subst ht; exact ⟨rfl, h⟩
+  | .sym s _, h => by
+    refine ⟨by simp [Syn.ofTail, Syn.SupportedL], ?_⟩
+    intro t ht; simp only [Syn.ofTail, Option.some.injEq] at ht; subst ht; exact ⟨rfl, h⟩
+  | .vec xs _, h => by
+    refine ⟨by simp [Syn.ofTail, Syn.SupportedL], ?_⟩
+    intro t ht; simp only [Syn.ofTail, Option.some.injEq] at ht; subst ht
+    simpa [Syn.Supported] using ofDatums_supported xs (by simpa [SupportedD] using h)
+theorem ofDatums_supported : (xs : List Datum) → SupportedDs xs → Syn.SupportedL (Syn.ofDatums xs)
+  | [], _ => by simp [Syn.ofDatums, Syn.SupportedL]
+  | x :: xs, h => by
+    simp only [SupportedDs] at h
+    simp [Syn.ofDatums, Syn.SupportedL, ofDatum_supported x h.1, ofDatums_supported xs h.2]
+end
 
 end Ruschm.Text
